@@ -188,6 +188,18 @@ def cases2(draw, tier, kind):
         lhs, _r = sides(law, p, q, a, b, c, d)
         n = (F.horizon(lhs) or 0) + draw(st.sampled_from([1, 2, 3, 5]))
         case['trace'] = draw(F.traces(vs, n=n))
+    elif draw(st.integers(0, 2)) == 0:
+        # long, mostly monotone runs sampled every cell with wide windows: the sliding-window code needs several pops in a row
+        sig = {}
+        for v in vs:
+            m = draw(st.integers(6, 12))
+            vals = sorted(draw(st.lists(st.integers(-16, 16), min_size=m, max_size=m, unique=True)), reverse=draw(st.booleans()))
+            for _ in range(draw(st.integers(0, 2))):
+                vals[draw(st.integers(0, m - 1))] = draw(st.integers(-16, 16))
+            sig[v] = [[i, x / 2.0] for i, x in enumerate(vals)]
+        case['signals'] = sig
+        case['b'] = draw(st.integers(2, 8))
+        case['a'] = draw(st.integers(0, case['b']))
     else:
         case['signals'] = {v: draw(grid_signal(0, max_samples=6)) for v in vs}
     return case
